@@ -3,11 +3,16 @@
 import json, glob, os
 root = os.path.dirname(os.path.dirname(os.path.abspath(__file__)))
 rows = []
+# notes kept apart from meta.json (which is rewritten by every admission): why a change is not expected to be flagged, or which check flags it
+notes = json.load(open(os.path.join(root, "seeded", "notes.json"))) if os.path.exists(os.path.join(root, "seeded", "notes.json")) else {}
 for d in sorted(glob.glob(os.path.join(root, "seeded", "C*"))):
     m = os.path.join(d, "meta.json")
     if not os.path.exists(m):
         continue
     j = json.load(open(m))
+    if os.path.basename(d) in notes and j.get("note") != notes[os.path.basename(d)]:
+        j["note"] = notes[os.path.basename(d)]
+        json.dump(j, open(m, "w"), indent=1)
     det = j["detection"]
     tier = "quick" if det["quick_exit"] == 1 else ("thorough" if det.get("thorough_exit") == 1 else "—")
     sig = (det["quick_signatures"] or det.get("thorough_signatures") or "").split("|")[0].strip()
@@ -18,8 +23,9 @@ caught = sum(1 for r in rows if r[2] == "yes")
 out = ["# Seeded changes: which check catches which\n",
        "Each change was produced by an independent sub-agent that saw only the text of one property and a scratch worktree,",
        "then confirmed here on a scratch worktree of /repo (`bin/seed_admit.sh`): the demonstration passes without the change and fails with it,",
-       "and the repository's test-suite stays at its baseline with it. `a`/`b` = first round, `c`/`d` = second round (asked for ideas different from the first).",
-       "The check run is the property's own registered check (`bin/verif check <ID>`), quick tier first, thorough only if quick passes.\n",
+       "and the repository's test-suite stays at its baseline with it. `a`/`b` = first round, `c`/`d` = second, `e`/`f` = third round (rounds 2 and 3 were asked for ideas different from the earlier ones).",
+       "The check run is the property's own registered check (`bin/verif check <ID>`), quick tier with seed 1 first; if it passes, the quick tier with seeds 2 and 3 (column tier = thorough).",
+       "A change whose demonstration lies outside the input class of its property, or that another property's check flags, says so in the note column.\n",
        "%d of %d changes are caught by the check of the property they were written against.\n" % (caught, len(rows)),
        "| change | property | caught | tier | first violation signature | note |", "|---|---|---|---|---|---|"]
 for r in rows:
